@@ -41,10 +41,20 @@ def the_map(eng, r, fr):
 
 
 def lookup(eng, mp, k, fr):
+    """index of the entry whose key equals k, or None; forks once per feasible entry (model-guided)"""
+    conds = []
     for i, (kk, cell) in enumerate(mp.entries):
-        if eng.branch_bool(z3.simplify(key_eq(eng, kk, k, fr))):
+        c = z3.simplify(key_eq(eng, kk, k, fr))
+        if z3.is_true(c):
             return i
-    return None
+        if z3.is_false(c):
+            continue
+        conds.append((i, c))
+    if not conds:
+        return None
+    opts = list(conds)
+    opts.append((None, z3.And(*[z3.Not(c) for _, c in conds])))
+    return eng.choose(opts)
 
 
 @model(r'^' + MAP + r'::<.*>::new$|^<' + MAP + r'<.*> as Default>::default$')
